@@ -57,6 +57,8 @@ type Meta struct {
 	// Bystander: a misfit world with a second, clean converter interface after (1)
 	// or before (2) the one holding the misfit
 	Bystander int `json:"bystander,omitempty"`
+	// GetterConv: an errshape world of the getter-into-plain-converter shape
+	GetterConv bool `json:"getter_conv,omitempty"`
 }
 
 type fdef struct{ name, typ string }
@@ -195,6 +197,10 @@ func Gen(r *sim.Rng, kind string) (*sim.WorldSpec, *Meta) {
 		fmt.Sscanf(strings.TrimPrefix(kind, "errshape="), "%d", &errShape)
 		kind = "errshape"
 	}
+	// (errshape numbers 3.. are the "getterconv" shape: a converter WITHOUT error
+	// result fed by a getter WITH one - ":conv pA GetB() A". The pinned tree emits
+	// pA(src.GetB()), which does not compile (C01, no verdict here); a tree that
+	// makes it compile has to check the getter's error before the converter runs)
 	w := &sim.WorldSpec{Files: map[string]string{}, Setup: "mod/conv/setup.go"}
 	meta := &Meta{Kind: kind}
 	w.Files["mod/go.mod"] = "module example.com/g\n\ngo 1.19\n"
@@ -399,16 +405,24 @@ func Gen(r *sim.Rng, kind string) (*sim.WorldSpec, *Meta) {
 			slot = func(int) bool { return false }
 			mm.RetErr, mm.Local, mm.Recv, mm.Same, mm.Extras = true, false, "", false, nil
 			notes = removeNote(notes, ":recv r")
-			switch errShape % 3 {
-			case 0:
-				notes = append(notes, ":conv cKE A")
-			case 1:
-				notes = append(notes, ":map GetKE() B")
-			case 2:
-				notes = append(notes, ":conv cKE N.X")
+			if errShape >= 3 {
+				// (fallible converters on several other fields, wherever A comes in the
+				// destination's field order some of them run after it)
+				notes = append(notes, ":conv pA GetB() A", ":conv cD D", ":conv cC C", ":conv cE1 Base.E1", ":conv cNX N.X")
+				capable["S.GetB"], capable["cD"], capable["cC"], capable["cE1"], capable["cNX"] = true, true, true, true, true
+				meta.GetterConv = true
+			} else {
+				switch errShape % 3 {
+				case 0:
+					notes = append(notes, ":conv cKE A")
+				case 1:
+					notes = append(notes, ":map GetKE() B")
+				case 2:
+					notes = append(notes, ":conv cKE N.X")
+				}
+				notes = append(notes, ":conv cD D")
+				capable["cKE"], capable["S.GetKE"], capable["cD"] = errShape%3 != 1, errShape%3 == 1, true
 			}
-			notes = append(notes, ":conv cD D")
-			capable["cKE"], capable["S.GetKE"], capable["cD"] = errShape%3 != 1, errShape%3 == 1, true
 		}
 		if mm.Same {
 			// the slots whose stubs fit identical field types on both sides
